@@ -65,7 +65,8 @@ pub fn c20_mirrors(cx: &mut Ctx) {
         }
         cx.probe("c20_mirror_connection");
         for (ui, u) in bc.units.iter().enumerate() {
-            if u.in_bytes.is_empty() {
+            if u.in_bytes.is_empty() || u.in_types == vec![b'X'] {
+                // nothing, or the mirror connection's own Terminate
                 continue;
             }
             // the last request on a connection may be incomplete: the connection died (fault
@@ -85,8 +86,9 @@ pub fn c20_mirrors(cx: &mut Ctx) {
                 Some(seqs) => {
                     let n = mirrored_count.entry((bc.host.clone(), u.in_bytes.clone())).or_insert(0);
                     *n += 1;
-                    // pooler-made requests (SET, ';', DISCARD ALL) repeat legitimately; tagged ones are unique
-                    if !u.tags.is_empty() && *n > seqs.len() {
+                    // every copy needs an original: also for the pooler's own requests (SET, ';',
+                    // DISCARD ALL, prewarmer queries), which repeat but never more often than at the server
+                    if *n > seqs.len() {
                         cx.v("C20", "mirror_duplicate", "C20/request_mirrored_more_often_than_sent", u.first_seq, format!("mirror {} conn {} received the request of {:?} {} times; the mirrored server {} received it {} time(s)", bc.host, ci, u.tags.first(), n, target, seqs.len()));
                     }
                 }
